@@ -11,6 +11,7 @@ import (
 	"strings"
 	"testing"
 
+	"github.com/tencent/goom/arg"
 	"github.com/tencent/goom/internal/patch"
 	"github.com/tencent/goom/internal/zzverif/c12p"
 	"github.com/tencent/goom/internal/zzverif/vh"
@@ -44,6 +45,15 @@ func (t *vc12T) M1(a int) int { return vc12pad(a, 100000) }
 //go:noinline
 func (t *vc12T) M2(a int) int { return vc12pad(a, 100000) }
 
+// vc12u exists under the same name in package c12p (ExportStruct target)
+type vc12u struct{ pad int }
+
+//go:noinline
+func (t *vc12u) um(a int) int { return vc12pad(a, 100000) }
+
+// vc12ucopy mirrors the layout of both vc12u types (the other package's one cannot be named here)
+type vc12ucopy struct{ pad int }
+
 type vc12If interface{ M(a int) int }
 
 type vc12Impl struct{ pad int }
@@ -67,6 +77,10 @@ var vc12FnK = []func(int) int{
 var vc12StK = []func(*vc12T, int) int{
 	func(_ *vc12T, a int) int { return vc12k(0, a) }, func(_ *vc12T, a int) int { return vc12k(1, a) },
 	func(_ *vc12T, a int) int { return vc12k(2, a) }, func(_ *vc12T, a int) int { return vc12k(3, a) },
+}
+var vc12UmK = []func(*vc12ucopy, int) int{
+	func(_ *vc12ucopy, a int) int { return vc12k(0, a) }, func(_ *vc12ucopy, a int) int { return vc12k(1, a) },
+	func(_ *vc12ucopy, a int) int { return vc12k(2, a) }, func(_ *vc12ucopy, a int) int { return vc12k(3, a) },
 }
 var vc12IfK = []func(*IContext, int) int{
 	func(_ *IContext, a int) int { return vc12k(0, a) }, func(_ *IContext, a int) int { return vc12k(1, a) },
@@ -110,6 +124,8 @@ var vc12Targets = []struct {
 	{"y0", func(a int) int { return vc12Y(a) }},
 	{"x1", func(a int) int { return c12p.CallX(a) }},
 	{"y1", func(a int) int { return c12p.CallY(a) }},
+	{"u0", func(a int) int { return (&vc12u{}).um(a) }},
+	{"u1", func(a int) int { return c12p.CallUm(a) }},
 }
 
 func vc12behaviour() string {
@@ -154,7 +170,17 @@ func vc12ints(toks []string) []interface{} {
 }
 
 // stub applies a stub instruction to an ExportedMocker
-func vc12stub(m ExportedMocker, ins []string) {
+func vc12stub(m ExportedMocker, ins []string, recv bool) {
+	if recv { // As() on an unexported method yields a DefMocker whose conditions include the receiver
+		switch ins[0] {
+		case "when":
+			m.When(arg.Any(), int(vh.I64(ins[1])))
+			return
+		case "whenret":
+			m.When(arg.Any(), int(vh.I64(ins[1]))).Return(int(vh.I64(ins[2])))
+			return
+		}
+	}
 	switch ins[0] {
 	case "ret":
 		m.Return(vc12ints(ins[1:])...)
@@ -212,6 +238,7 @@ func (r *vc12run) step(toks []string) string {
 		mk   Mocker
 		stub func() ExportedMocker
 		cb   interface{}
+		recv bool
 	)
 	kidx := func() int {
 		if ins[0] == "apply" {
@@ -240,6 +267,12 @@ func (r *vc12run) step(toks []string) string {
 	case "xf":
 		m := b.ExportFunc("vc12" + toks[1])
 		mk, stub, cb = m, func() ExportedMocker { return m.As(func(int) int { return 0 }) }, vc12FnK[kidx()]
+	case "xs":
+		if toks[1] != "um" {
+			panic("bad-op")
+		}
+		m := b.ExportStruct("*vc12u").Method("um")
+		mk, stub, cb, recv = m, func() ExportedMocker { return m.As(func(*vc12ucopy, int) int { return 0 }) }, vc12UmK[kidx()], true
 	default:
 		panic("bad-op")
 	}
@@ -251,7 +284,7 @@ func (r *vc12run) step(toks []string) string {
 	case "cancel":
 		mk.Cancel()
 	default:
-		vc12stub(stub(), ins)
+		vc12stub(stub(), ins, recv)
 	}
 	return id
 }
